@@ -129,8 +129,9 @@ def tree_objects(draw, max_leaves, min_leaves=1, n_taxa=None):
 
 
 def muts(kinds):
-    return st.fixed_dictionaries({"side": st.sampled_from(["src", "copy"]), "kind": st.sampled_from(kinds), "sel": SEL, "sel2": SEL,
-                                  "val": VALUES, "flag": B})
+    kinds = list(kinds)
+    return st.fixed_dictionaries({"side": st.sampled_from(["src", "copy"]), "kind": SEL.map(lambda k: kinds[k % len(kinds)]),
+                                  "sel": SEL, "sel2": SEL, "val": VALUES, "flag": B})
 
 
 @st.composite
@@ -181,9 +182,9 @@ CONT_POOL = [0.0, 1.0, -2.5, 0.125, 1e-9, 3.141592653589793, 1e12, 7]
 
 
 @st.composite
-def tree_cases(draw, max_leaves):
+def tree_cases(draw, max_leaves, route=None):
     obj = draw(tree_objects(max_leaves))
-    route = draw(st.sampled_from(TREE_ROUTES))
+    route = route or draw(st.sampled_from(TREE_ROUTES))
     case = {"obj": obj, "route": route, "mut": draw(muts(TREE_MUTS))}
     if route == "ctor_ns":
         case["foreign"] = draw(foreign_ns(shapes.n_leaves(obj["spec"])))
@@ -194,14 +195,14 @@ def tree_cases(draw, max_leaves):
 
 
 @st.composite
-def list_cases(draw, max_leaves):
+def list_cases(draw, max_leaves, route=None):
     n = draw(st.integers(1, max_leaves))
     k = draw(st.integers(0, 3))
     trees = [draw(tree_objects(max_leaves, n_taxa=n)) for _ in range(k)]
     obj = {"kind": "treelist", "n": n, "hist": draw(shapes.namespace_history(n, max_extra=2)), "trees": trees,
            "label": draw(st.sampled_from([None, "trees"])), "ldec": draw(decor(builtin=("label",))),
            "xdec": [[draw(st.integers(0, n - 1)), draw(decor(p=2))] for _ in range(draw(st.integers(0, 1)))]}
-    route = draw(st.sampled_from(LIST_ROUTES))
+    route = route or draw(st.sampled_from(LIST_ROUTES))
     case = {"obj": obj, "route": route, "mut": draw(muts(LIST_MUTS)), "tmut": draw(muts(TREE_MUTS)),
             "newtree": draw(tree_objects(min(4, max_leaves), n_taxa=n))}
     if route == "ctor_ns":
@@ -210,7 +211,7 @@ def list_cases(draw, max_leaves):
 
 
 @st.composite
-def matrix_cases(draw, max_taxa, max_cols):
+def matrix_cases(draw, max_taxa, max_cols, route=None):
     dtype = draw(st.sampled_from(sorted(MATRIX_TYPES)))
     n = draw(st.integers(1, max_taxa))
     ncol = draw(st.integers(0, max_cols))
@@ -229,7 +230,7 @@ def matrix_cases(draw, max_taxa, max_cols):
                       for q in range(draw(st.integers(0, 2)))],
            "cellann": [[draw(SEL), draw(SEL), draw(st.sampled_from(ANN_NAMES)), draw(VALUES)] for _ in range(draw(st.integers(0, 2)))],
            "xdec": [[draw(st.integers(0, n - 1)), draw(decor(p=2))] for _ in range(draw(st.integers(0, 1)))]}
-    route = draw(st.sampled_from(MATRIX_ROUTES))
+    route = route or draw(st.sampled_from(MATRIX_ROUTES))
     case = {"obj": obj, "route": route, "mut": draw(muts(MATRIX_MUTS))}
     if route == "ctor_ns":
         case["foreign"] = draw(foreign_ns(n))
@@ -237,13 +238,13 @@ def matrix_cases(draw, max_taxa, max_cols):
 
 
 @st.composite
-def ns_cases(draw, max_taxa):
+def ns_cases(draw, max_taxa, route=None):
     n = draw(st.integers(0, max_taxa))
     obj = {"kind": "namespace", "n": n, "hist": draw(shapes.namespace_history(n, max_extra=2)),
            "label": draw(st.sampled_from([None, "taxa"])), "nsdec": draw(decor(builtin=("label",))),
            "xdec": [[draw(st.integers(0, max(0, n - 1))), draw(decor())] for _ in range(draw(st.integers(0, 3)) if n else 0)],
            "case_sensitive": draw(B), "immutable": draw(st.integers(0, 5)) == 0, "bitmasks_cached": draw(B)}
-    return {"obj": obj, "route": draw(st.sampled_from(NS_ROUTES)), "mut": draw(muts(NS_MUTS))}
+    return {"obj": obj, "route": route or draw(st.sampled_from(NS_ROUTES)), "mut": draw(muts(NS_MUTS))}
 
 
 # ---------------------------------------------------------------------------------------------------------------------
@@ -1268,13 +1269,123 @@ def check_ns(ctx, case):
     ctx.sample("namespace:" + route, {"n": obj["n"], "nsdec": obj["nsdec"], "xdec": obj["xdec"], "route": route, "mut": mut})
 
 
-SUBCHECKS = {"tree": check_tree, "treelist": check_list, "matrix": check_matrix, "namespace": check_ns}
+# ---------------------------------------------------------------------------------------------------------------------
+# exhaustive part: every route x every mutation kind x both sides on one fixed annotated object of each kind
+# ---------------------------------------------------------------------------------------------------------------------
+
+def _leaf(t, length):
+    return {"t": t, "lab": None, "len": length, "ch": []}
+
+
+FIXED_TREE = {
+    "kind": "tree",
+    "spec": {"t": None, "lab": "root", "len": None, "ch": [
+        {"t": None, "lab": "n1", "len": 0.5, "ch": [_leaf(0, 1.0), _leaf(1, 2.0)]},
+        {"t": None, "lab": None, "len": 0.25, "ch": [_leaf(2, 1.0), _leaf(3, 1.5)]}]},
+    "lenpat": "dyadic", "rooted": True, "label": "fixed", "weight": 2.0,
+    "tdec": {"ann": [["color", "red"], ["size", [1, 2]]], "subann": [[0, "note", "sub"]], "bound": [["b0", [3, 4], False], ["weight", None, False]],
+             "comments": ["tree comment"], "extra": [["x0", {"ref": 1}], ["x1", [7]]]},
+    "ndec": [[1, {"ann": [["pop", 10]], "bound": [["b1", 5, False], ["label", None, False], ["length", None, True]], "comments": ["c"],
+                  "extra": [["x0", {"ref": 4}]]}],
+             [2, {"ann": [["note", {"k": 1}]], "extra": [["x1", [1, 2]]]}]],
+    "edec": [[4, {"ann": [["x", 0.5]], "bound": [["length", None, False]], "comments": ["edge comment"]}]],
+    "enc": {"mutable": False, "maps": True},
+    "hist": {"extra": 1, "order": [4, 0, 1, 2, 3], "removed": [], "sort": None},
+    "nslabel": "taxa", "nsdec": {"ann": [["color", 1]], "bound": [["label", None, False]]},
+    "xdec": [[0, {"ann": [["size", 3]], "bound": [["b0", 1, False]]}]],
+}
+FIXED_SMALL_TREE = {"kind": "tree", "spec": {"t": None, "lab": None, "len": None, "ch": [_leaf(0, 1.0), _leaf(2, 1.0), _leaf(1, None)]},
+                    "lenpat": "partial", "rooted": None, "label": None, "weight": None, "tdec": {"ann": [["x", 1]]}, "ndec": [],
+                    "edec": [], "enc": None}
+_LIST_TREE = dict((k, v) for k, v in FIXED_TREE.items() if k not in ("hist", "nslabel", "nsdec", "xdec"))
+FIXED_LIST = {"kind": "treelist", "n": 4, "hist": FIXED_TREE["hist"], "trees": [_LIST_TREE, FIXED_SMALL_TREE], "label": "trees",
+              "ldec": {"ann": [["color", [1]], ["note", "n"]], "bound": [["b0", 2, False], ["label", None, False]], "comments": ["lc"],
+                       "extra": [["x1", [5]]]},
+              "xdec": FIXED_TREE["xdec"]}
+FIXED_MATRIX = {"kind": "matrix", "dtype": "standard_abc", "n": 3, "hist": {"extra": 1, "order": [3, 0, 1, 2], "removed": [], "sort": None},
+                "rows": [[0, [0, 1, 2, 3]], [2, [2, 2, 4, 0]]], "label": "M",
+                "mdec": {"ann": [["color", [1]], ["note", "n"]], "bound": [["b0", 2, False], ["label", None, False]], "comments": ["mc"],
+                         "extra": [["x1", [5]]]},
+                "seqdec": [[0, {"ann": [["size", 1]], "bound": [["b1", [1], False]]}]],
+                "subsets": [["s0", [0, 2], {"ann": [["x", 1]]}], ["s1", [], {}]],
+                "ctypes": [["ct0", {"ann": [["pop", 2]]}, [[0, 1], [1, 1]], True], ["ct1", {}, [[0, 3]], False]],
+                "cellann": [[0, 1, "color", "blue"], [1, 2, "note", [1]]],
+                "xdec": [[0, {"ann": [["size", 3]]}]]}
+FIXED_NS = {"kind": "namespace", "n": 3, "hist": {"extra": 2, "order": [3, 0, 4, 1, 2], "removed": [4], "sort": None}, "label": "taxa",
+            "nsdec": {"ann": [["color", [1]], ["note", "n"]], "bound": [["b0", 2, False], ["label", None, False]], "comments": ["nc"],
+                      "extra": [["x1", [5]]]},
+            "xdec": [[0, {"ann": [["size", 3]], "bound": [["b0", 1, False]], "comments": ["tc"]}], [2, {"ann": [["note", [2]]]}]],
+            "case_sensitive": False, "immutable": False, "bitmasks_cached": True}
+FIXED_FOREIGN = {"have": [2, 0], "other": 1, "other_first": True, "case_sensitive": False}
+
+
+def exhaustive_items(sels):
+    items = []
+    def mut(side, kind, sel):
+        return {"side": side, "kind": kind, "sel": sel, "sel2": sel // 3 + 1, "val": [8, 9], "flag": bool(sel & 1)}
+    for sel in sels:
+        for side in ("src", "copy"):
+            for route in TREE_ROUTES:
+                for kind in TREE_MUTS:
+                    items.append({"what": "tree", "route": route, "mut": mut(side, kind, sel)})
+            for route in LIST_ROUTES:
+                for kind in sorted(set(LIST_MUTS) - {"tree"}):
+                    items.append({"what": "treelist", "route": route, "mut": mut(side, kind, sel)})
+                for tkind in ("add_child", "remove_child", "edge_length", "ann_inplace", "bound_attr", "encode", "taxon_label", "comment"):
+                    items.append({"what": "treelist", "route": route, "mut": mut(side, "tree", sel), "tmut": mut(side, tkind, sel)})
+            for route in MATRIX_ROUTES:
+                for kind in MATRIX_MUTS:
+                    items.append({"what": "matrix", "route": route, "mut": mut(side, kind, sel)})
+            for route in NS_ROUTES:
+                for kind in NS_MUTS:
+                    items.append({"what": "namespace", "route": route, "mut": mut(side, kind, sel)})
+    return items
+
+
+def check_exh(ctx, item):
+    what, route = item["what"], item["route"]
+    case = {"route": route, "mut": item["mut"], "foreign": FIXED_FOREIGN, "su": True, "esr": bool(item["mut"]["sel"] & 2)}
+    if what == "tree":
+        check_tree(ctx, dict(case, obj=FIXED_TREE))
+    elif what == "treelist":
+        check_list(ctx, dict(case, obj=FIXED_LIST, tmut=item.get("tmut", item["mut"]), newtree=FIXED_SMALL_TREE))
+    elif what == "matrix":
+        check_matrix(ctx, dict(case, obj=FIXED_MATRIX))
+    else:
+        check_ns(ctx, dict(case, obj=FIXED_NS))
+
+
+SUBCHECKS = {"exhaustive": check_exh}
+PLAN = []
+for _r in TREE_ROUTES:
+    SUBCHECKS["tree:" + _r] = check_tree
+    PLAN.append(("tree:" + _r, "tree", _r))
+for _r in LIST_ROUTES:
+    SUBCHECKS["treelist:" + _r] = check_list
+    PLAN.append(("treelist:" + _r, "treelist", _r))
+for _r in MATRIX_ROUTES:
+    SUBCHECKS["matrix:" + _r] = check_matrix
+    PLAN.append(("matrix:" + _r, "matrix", _r))
+for _r in NS_ROUTES:
+    SUBCHECKS["namespace:" + _r] = check_ns
+    PLAN.append(("namespace:" + _r, "namespace", _r))
 
 
 def run(ctx):
     quick = ctx.tier == "quick"
-    per = lambda total: max(1, total // ctx.nshards)
-    runner.run_given(ctx, "tree", tree_cases(8 if quick else 40), check_tree, per(1600 if quick else 60000))
-    runner.run_given(ctx, "treelist", list_cases(6 if quick else 20), check_list, per(600 if quick else 20000))
-    runner.run_given(ctx, "matrix", matrix_cases(5 if quick else 12, 6 if quick else 30), check_matrix, per(1000 if quick else 40000))
-    runner.run_given(ctx, "namespace", ns_cases(6 if quick else 25), check_ns, per(600 if quick else 20000))
+    # examples per route over all shards
+    per_route = {"tree": 200 if quick else 7000, "treelist": 80 if quick else 2500, "matrix": 140 if quick else 5000,
+                 "namespace": 80 if quick else 2500}
+    runner.run_items(ctx, "exhaustive", exhaustive_items([1] if quick else [0, 1, 6]), check_exh)
+    # rotate so that, should the time budget bite, every shard drops a different tail
+    plan = PLAN[ctx.shard % len(PLAN):] + PLAN[:ctx.shard % len(PLAN)]
+    for name, what, route in plan:
+        n = max(1, per_route[what] // ctx.nshards)
+        if what == "tree":
+            runner.run_given(ctx, name, tree_cases(8 if quick else 40, route=route), check_tree, n)
+        elif what == "treelist":
+            runner.run_given(ctx, name, list_cases(6 if quick else 20, route=route), check_list, n)
+        elif what == "matrix":
+            runner.run_given(ctx, name, matrix_cases(5 if quick else 12, 6 if quick else 30, route=route), check_matrix, n)
+        else:
+            runner.run_given(ctx, name, ns_cases(6 if quick else 25, route=route), check_ns, n)
